@@ -244,6 +244,55 @@ Theorem C10_rgb565_carried_num_cols_defect :
 Proof. exact rgb565_carried_num_cols_defect. Qed.
 Print Assumptions C10_rgb565_carried_num_cols_defect.
 
+(* ---- round 3b ---- *)
+(* YCCK -> CMYK output rows (jdcolor.c ycck_cmyk_convert): arbitrary pairwise disjoint in-bounds row pointers (any pitch >= 4w,
+   either order): the four samples of every pixel read back as ycck_cmyk_pixel, length kept, nothing else written.
+   (CMYK -> YCCK only reads: C10_cmyk_ycck_any_memory is its row-level statement.) *)
+Theorem C10_ycck_cmyk_rows : forall w p (img : list (list px4)) buf ptrs,
+  length img = length ptrs -> Forall (fun row => length row = w) img ->
+  in_bounds (4 * Z.of_nat w) (length buf) ptrs -> separated (4 * Z.of_nat w) ptrs ->
+  let out := ycck_cmyk_convert p img buf ptrs in
+  length out = length buf /\
+  (forall j, 0 <= j -> outside_rows (4 * Z.of_nat w) ptrs j -> rd out j = rd buf j) /\
+  unpack4 out ptrs w = map (map (ycck_cmyk_pixel p)) img.
+Proof. exact ycck_cmyk_rows. Qed.
+Print Assumptions C10_ycck_cmyk_rows.
+
+(* jdmrg565.c (merged upsampling to RGB565, h2v1/h2v2, plain and dithered): the model has no address input, no state carried
+   from row to row; for every width >= 0 the buffer keeps its length and nothing outside the 2*w bytes of the rows is written *)
+Theorem C10_merged565_frame_partial : forall dith v2 w scan ys cbs crs buf ptrs, 0 <= w ->
+  length (merged565 false dith v2 w scan ys cbs crs buf ptrs) = length buf /\
+  forall j, 0 <= j -> outside_rows (2 * w) ptrs j -> rd (merged565 false dith v2 w scan ys cbs crs buf ptrs) j = rd buf j.
+Proof. exact merged565_frame. Qed.
+Print Assumptions C10_merged565_frame_partial.
+
+(* ordered dithering in jdcol565.c: the dither state of a call is dither_matrix[output_scanline & 3], taken once per call ... *)
+Theorem C10_dither565_call_state : forall src base scan w img buf ptrs,
+  convert565 false src true base scan w img buf ptrs =
+  rows565 rgb565_numcols_reset_per_row false src true base w img buf ptrs w (nth (Z.to_nat (Z.land scan DITHER_MASK)) dither_matrix 0).
+Proof. exact dither565_call_state. Qed.
+Print Assumptions C10_dither565_call_state.
+
+(* ... so dithered RGB565 depends on scanlines-per-call (first row of a call agrees, the second does not; C09 territory) ... *)
+Theorem C10_dither565_depends_on_lines_per_call :
+  let img := [[(100, 110, 120); (101, 111, 121); (102, 112, 122); (103, 113, 123)];
+              [(100, 110, 120); (101, 111, 121); (102, 112, 122); (103, 113, 123)]] in
+  let buf := repeat 0 16 in
+  let one_call := convert565 false 1 true 0 0 4 img buf [0; 8] in
+  let two_calls := convert565 false 1 true 0 1 4 (tl img) (convert565 false 1 true 0 0 4 [hd [] img] buf [0]) [8] in
+  firstn 8 one_call = firstn 8 two_calls /\ one_call <> two_calls.
+Proof. exact dither565_depends_on_lines_per_call. Qed.
+Print Assumptions C10_dither565_depends_on_lines_per_call.
+
+(* ... and on the alignment of the row pointer, while the undithered conversion does not *)
+Theorem C10_dither565_depends_on_alignment :
+  let row := [[(100, 110, 120); (101, 111, 121); (102, 112, 122); (103, 113, 123)]] in
+  let buf := repeat 0 8 in
+  convert565 false 1 true 0 0 4 row buf [0] <> convert565 false 1 true 2 0 4 row buf [0] /\
+  convert565 false 1 false 0 0 4 row buf [0] = convert565 false 1 false 2 0 4 row buf [0].
+Proof. exact dither565_depends_on_alignment. Qed.
+Print Assumptions C10_dither565_depends_on_alignment.
+
 (* non-vacuity: the hypotheses of (2) and (3) hold for concrete non-trivial values *)
 Example C10_compress_example :
   let L1 := cs_layout JCS_EXT_RGB in let L2 := cs_layout JCS_EXT_XBGR in
